@@ -46,7 +46,7 @@ def plan(prop, tier, seed, B_quick=1):
         elif prop == "C03":
             # rewards are computed by batched gathers and, for some envs, python loops over batch rows: a second,
             # smaller job with two independent rows exposes row mix-ups that B=1 cannot show
-            small = max(2, nq - 1) if spec not in NO_GENERATOR and spec != "svrp" else nq
+            small = max(2, nq - 1) if spec not in NO_GENERATOR and spec not in ("svrp", "mtsp") else nq  # mTSP: rows of a batch finish at different steps only from n=3
             sizes = [(nq, 1), (small, 2)] if tier == "quick" else [(nq, 2), (nt, 1)]
             if spec == "mcp":
                 sizes = [(3, 1), (2, 2)]
